@@ -26,6 +26,7 @@
 #endif
 
 namespace vrf {
+inline int g_heap_fill = 0xA5;  // byte that fresh heap blocks are filled with (non-ASan builds); init(): odd process indices use 0x00
 
 using mutex_t = std::verif_mutex;
 using timed_mutex_t = std::verif_timed_mutex;
@@ -338,6 +339,9 @@ inline void init(int argc, char** argv, const char* property)
     else if (cfg.engine == "stress") rt.engine.store(E_STRESS);
     else rt.engine.store(E_OFF);  // "seq", "off"
     if (VRF_TSAN && cfg.engine == "serial") harness_error("serial engine is never run under TSan");
+#if !VRF_ASAN
+    g_heap_fill = (cfg.proc % 2) ? 0x00 : 0xA5;
+#endif
     struct sigaction sa;
     memset(&sa, 0, sizeof sa);
     sa.sa_handler = crash_handler;
@@ -1212,6 +1216,27 @@ struct TrackAlloc {
 };
 
 }  // namespace vrf
+
+// Hostile heap for the builds without AddressSanitizer (which has its own 0xbe fill): fresh blocks are filled with 0xA5 and
+// released ones with 0xDD, so that a member the library forgot to initialise, or a read through a dangling pointer, meets
+// garbage instead of the zeroes a fresh process usually hands out. (Automatic objects get -ftrivial-auto-var-init=pattern.)
+#if !VRF_ASAN
+#include <malloc.h>
+void* operator new(std::size_t n)
+{
+    void* p = std::malloc(n ? n : 1);
+    if (p == nullptr) throw std::bad_alloc();
+    std::memset(p, vrf::g_heap_fill, n);
+    return p;
+}
+void operator delete(void* p) noexcept
+{
+    if (p == nullptr) return;
+    std::memset(p, 0xDD, malloc_usable_size(p));
+    std::free(p);
+}
+void operator delete(void* p, std::size_t) noexcept { ::operator delete(p); }
+#endif
 
 #if VRF_ASAN
 extern "C" void __asan_on_error()
